@@ -155,28 +155,41 @@ fn ren_onst_nrb(balance_cr: &HashMap<Carrier, BalanceCarrier>, k_exp: f32) -> (f
             }
         })
         .sum::<f32>();
+    let el = balance_cr.get(&Carrier::ELECTRICIDAD);
+    let share = |part: Option<&f32>, total: f32| match part {
+        Some(part) if total > 0.0 => part / total,
+        _ => 0.0,
+    };
     // 2. Renewable energy from onsite produced electricity (excl. cogen)
-    let ren_el_onst = balance_cr
-        .get(&Carrier::ELECTRICIDAD)
-        .map(|cr| cr.we.del_onst.ren)
+    // The exported part is removed depending on the k_exp value
+    let ren_el_onst = el
+        .map(|cr| {
+            let exp_share = share(cr.exp.by_src_an.get(&ProdSource::EL_INSITU), cr.del.onst_an);
+            cr.we.del_onst.ren * (1.0 - (1.0 - k_exp) * exp_share)
+        })
         .unwrap_or(0.0);
     // 3. Renewable energy from cogeneration
-    let ren_el_cgn = balance_cr
-        .get(&Carrier::ELECTRICIDAD)
-        .map(|cr| cr.we.del_cgn.ren)
-        .unwrap_or(0.0);
-    // 3. Renewable resources used for exported electricity
+    let ren_el_cgn = el.map(|cr| cr.we.del_cgn.ren).unwrap_or(0.0);
+    // 3. Renewable resources from nearby carriers used to cogenerate the exported electricity
     // These have to be substracted depending on k_exp value
-    let ren_el_exp_a = balance_cr
-        .get(&Carrier::ELECTRICIDAD)
-        .map(|cr| cr.we.exp_a.ren)
+    let ren_cgn_exp = el
+        .map(|cr| {
+            let produced = cr.prod.by_src_an.get(&ProdSource::EL_COGEN).copied().unwrap_or(0.0);
+            let exp_share = share(cr.exp.by_src_an.get(&ProdSource::EL_COGEN), produced);
+            let ren_nrb_cgn_in = balance_cr
+                .iter()
+                .filter(|(carrier, _)| carrier.is_nearby())
+                .map(|(_, bal)| bal.we.del_cgn.ren)
+                .sum::<f32>();
+            ren_nrb_cgn_in * exp_share
+        })
         .unwrap_or(0.0);
     // 4. Add all contributions
     (
         // Onsite
         ren_onst_cr + ren_el_onst,
         // Nearby
-        ren_nrb_cr + ren_el_onst + ren_el_cgn - (1.0 - k_exp) * ren_el_exp_a,
+        ren_nrb_cr + ren_el_onst + ren_el_cgn - (1.0 - k_exp) * ren_cgn_exp,
     )
 }
 
